@@ -37,12 +37,14 @@ pub fn toml_key() {
 }
 
 // ---- XML text escaping ----------------------------------------------------------------------------
-//@harness tier=quick timeout=900 desc="XML escaping: no raw < > \" ' in the output, & only as the start of one of the five predefined entities, and un-escaping gives the input back" bounds="every well-formed UTF-8 string of <= 3 bytes"
+macro_rules! xml_harness {
+    ($name:ident, $len:literal) => {
 #[kani::proof]
 #[kani::unwind(26)]
-pub fn xml_escape() {
+pub fn $name() {
     use crate::xml::*;
-    let s = SymStr::<3>::any_utf8();
+    // concrete length per harness, bytes symbolic
+    let s = SymStr::<3>::any_utf8_len($len);
     #[cfg(verif_playback)]
     {
         println!("REPLAY-INPUT: text={:?}", s.as_str());
@@ -99,9 +101,17 @@ pub fn xml_escape() {
         }
         k += 1;
     }
-    kani::cover!(s.n == 3 && s.b[0] == b'&' && s.b[2] == b'<', "two markup characters reached");
-    kani::cover!(s.n == 3 && ob.len() == 3, "text without markup reached");
+    kani::cover!($len < 3 || (s.b[0] == b'&' && s.b[2] == b'<'), "two markup characters reached");
+    kani::cover!(ob.len() == $len, "text without markup reached");
 }
+    };
+}
+//@harness name=xml_escape_1 tier=quick timeout=600 unwind=26 desc="XML escaping: no raw < > \" ' in the output, & only as the start of one of the five predefined entities, and un-escaping gives the input back" bounds="every well-formed UTF-8 string of exactly 1 byte"
+xml_harness!(xml_escape_1, 1);
+//@harness name=xml_escape_2 tier=quick timeout=900 unwind=26 desc="same" bounds="every well-formed UTF-8 string of exactly 2 bytes"
+xml_harness!(xml_escape_2, 2);
+//@harness name=xml_escape_3 tier=quick timeout=1200 unwind=26 desc="same" bounds="every well-formed UTF-8 string of exactly 3 bytes"
+xml_harness!(xml_escape_3, 3);
 
 // ---- YAML bare keys -------------------------------------------------------------------------------
 const YN: usize = 4;
@@ -167,24 +177,30 @@ fn yaml11_special(b: &[u8; YN], n: usize) -> bool {
     if b[s] >= b'1' && b[s] <= b'9' && all_in(b, s + 1, n, |c| c.is_ascii_digit() || c == b'_') {
         return true;
     }
-    // float: ([0-9][0-9_]*)?\.[0-9.]*([eE][-+][0-9]+)?   (the exponent needs >= 3 more bytes: not within 4)
+    // float, as YAML 1.1 resolvers implement it (PyYAML, libyaml/go-yaml): [-+]?([0-9][0-9_]*)?\.[0-9_]*
+    // with at least one digit; an exponent needs 3 more bytes ("e-1"), covered for the 4-byte form ".e-1"?
+    // no: that has no digit before the exponent -> not a float. (The literal regex of yaml.org/type/float
+    // would also accept "..", "-.9." — no resolver does; an earlier version of this reference followed it
+    // and raised a false alarm on those keys.)
     let mut i = s;
+    let mut digits = 0;
     if i < n && digit(b[i]) {
-        i += 1;
         while i < n && (digit(b[i]) || b[i] == b'_') {
+            if digit(b[i]) {
+                digits += 1;
+            }
             i += 1;
         }
     }
     if i < n && b[i] == b'.' {
-        if all_in(b, i + 1, n, |c| c.is_ascii_digit() || c == b'.') {
-            return true;
-        }
-        // mantissa followed by an exponent within 4 bytes: ".e-1" needs 4 -> covered
         let mut j = i + 1;
-        while j < n && (digit(b[j]) || b[j] == b'.') {
+        while j < n && (digit(b[j]) || b[j] == b'_') {
+            if digit(b[j]) {
+                digits += 1;
+            }
             j += 1;
         }
-        if j + 2 < n + 0 && (b[j] == b'e' || b[j] == b'E') && b[j + 1] == b'-' && all_in(b, j + 2, n, |c| c.is_ascii_digit()) && j + 2 < n {
+        if j == n && digits > 0 {
             return true;
         }
     }
@@ -200,9 +216,8 @@ macro_rules! yaml_harness {
         #[kani::unwind(18)]
         pub fn $name() {
             use crate::yaml::*;
-            let s = SymStr::<YN>::any_ascii();
             // concrete length per harness; bytes symbolic
-            kani::assume(s.n == $len);
+            let s = SymStr::<YN>::any_ascii_len($len);
             #[cfg(verif_playback)]
             {
                 println!("REPLAY-INPUT: key={:?} special={}", s.as_str(), yaml11_special(&s.b, s.n));
